@@ -76,8 +76,16 @@ func GenKeyPool(rt *rapid.T, n int) [][]byte {
 	return pool
 }
 
-// WeightOf is the rule "a key's weight is determined by its value".
-func WeightOf(v []byte) uint64 { return 1 + uint64(v[0]%7) }
+// WeightOf is the rule "a key's weight is determined by its value" (the quantifier of C09 says so; an update that
+// changes only the weight is outside it - the library ignores such an update, see DESIGN §6.4). Mostly 1..7; one value
+// in sixteen (by its third byte) gets a wide weight that uses up to six bytes of the eight-byte encoding.
+func WeightOf(v []byte) uint64 {
+	w := 1 + uint64(v[0]%7)
+	if len(v) > 2 && v[2]%16 == 15 {
+		w <<= 8 * uint(1+v[1]%5)
+	}
+	return w
+}
 
 // GenValue draws a value of 1..8 bytes. unique: the value embeds the key index
 // and a counter so no two keys ever share a value.
@@ -111,8 +119,6 @@ type Machine struct {
 	// Dirty: updates/deletes since the last trie commit. Unwritten: a trie commit's batch not yet written.
 	Dirty bool
 	Fail  func(string, ...any)
-	// RT, when set, lets Update draw weights independently of values.
-	RT *rapid.T
 }
 
 func New(db *memkv.Store, fail func(string, ...any)) *Machine {
@@ -142,33 +148,12 @@ func Entries(model map[string]refwmpt.Entry) []refwmpt.Entry {
 
 func short(k []byte) string { return fmt.Sprintf("%x..%x", k[:2], k[30:]) }
 
-// GenWeight draws a weight independent of the value: mostly 1..9, sometimes wide (all eight bytes of the encoding in use).
-func GenWeight(rt *rapid.T) uint64 {
-	if gen.Chance(rt, 8, "widew") {
-		return uint64(gen.Uniform(rt, 1, 9, "ww")) << uint(8*gen.Uniform(rt, 1, 5, "wshift"))
-	}
-	return uint64(gen.Uniform(rt, 1, 9, "w"))
-}
-
-// Update sets key to value. With a generator attached (RT) the weight is drawn independently of the value two times
-// out of three; otherwise it follows the rule WeightOf.
-func (m *Machine) Update(key, value []byte) {
-	w := WeightOf(value)
-	if m.RT != nil && gen.Chance(m.RT, 66, "drawweight") {
-		w = GenWeight(m.RT)
-	}
-	m.UpdateW(key, value, w)
-}
+// Update sets key to value with the weight given by the rule WeightOf.
+func (m *Machine) Update(key, value []byte) { m.UpdateW(key, value, WeightOf(value)) }
 
 // Rewrite stores an entry again exactly as it is (same value, same weight).
 func (m *Machine) Rewrite(e refwmpt.Entry) {
 	m.UpdateW(e.Key, append([]byte(nil), e.Value...), e.Weight)
-}
-
-// Reweigh changes only the weight of a live entry (the value bytes stay the same).
-func (m *Machine) Reweigh(e refwmpt.Entry, w uint64) {
-	m.Logf("(weight only)")
-	m.UpdateW(e.Key, append([]byte(nil), e.Value...), w)
 }
 
 // UpdateW sets key to (value, w) and checks the running total.
@@ -309,7 +294,7 @@ func Reopened(db *memkv.Store, root []byte, w uint64) *wmpt.WeightedMerkleTrie {
 	return wmpt.New(wmpt.NewHashNode(append([]byte(nil), root...), w), db)
 }
 
-// Churn takes a built trie through 0..2 further rounds of changes (new values, weight-only updates, deletes,
+// Churn takes a built trie through 0..2 further rounds of changes (new values for live keys, deletes,
 // re-adds from pool) so that the state handed to a check was reached by a history and not only by inserts. Hashes are
 // computed before every round (memory-only tries; reading hashes of a dirty stored trie is a listed C11 finding), and a
 // stored trie is committed at a drawn collapse level after every round. At least one entry stays live. Returns the
@@ -326,12 +311,9 @@ func (m *Machine) Churn(rt *rapid.T, pool [][]byte, counter *int, label string) 
 			case k < 30 && len(es) > 1:
 				m.Delete(gen.Pick(rt, es, label+"del").Key)
 			case k < 55 && len(es) > 0:
+				// a new value (and with it a new weight) for a live key
 				e := gen.Pick(rt, es, label+"rw")
-				w := GenWeight(rt)
-				if w == e.Weight {
-					w++
-				}
-				m.Reweigh(e, w)
+				m.Update(e.Key, GenValue(rt, 77, counter, true))
 			default:
 				ki := gen.Uniform(rt, 0, len(pool)-1, label+"ki")
 				m.Update(pool[ki], GenValue(rt, ki, counter, true))
